@@ -7,6 +7,21 @@ COMMON_TB = [
 ]
 
 PROPS = {
+    "C12": {
+        "lean_targets": ["BA.Props.C12"],
+        "harness": "c12",
+        "translators": ["extract_constants.py"],
+        "trusted_base": COMMON_TB + [
+            "the outcome of every inner send (ok/abort) and the re-entrant calls made during it are environment inputs of the model (an activation tree); the harness reads them off the vvm invocation trace",
+            "the proposal-hash comparison of Approve/Cancel is an input boolean of the model; the harness computes it with the actor's own compute_proposal_hash on the real pending entry",
+            "parameter bytes are modelled as a flat integer encoding; the model's decoder for self-calls mirrors the CBOR parameter types and is exercised by the correspondence runs (including malformed parameters)",
+        ],
+        "assumptions": [
+            "a message whose caller is the wallet exists only as the direct callee of the wallet's own inner send (an actor is the caller only of what it sends; the multisig actor sends only in execute_transaction_if_approved, and in address resolution of non-ID signer addresses, which is excluded next)",
+            "signer addresses given to the constructor, AddSigner and SwapSigner are ID addresses of existing actors (resolve_to_actor_id succeeds without sending)",
+            "transaction ids and epochs stay within i64; the exported-range receiver hook is modelled as accepting any parameters",
+        ],
+    },
     "C16": {
         "lean_targets": ["BA.Props.C16"],
         "harness": "c16",
